@@ -20,6 +20,7 @@ type DocOpts struct {
 // docSwitches: variants the document generator can draw; true = off by default.
 var docSwitches = map[string]bool{
 	"opt.absent": false, "opt.null": false, "arr.empty": false, "dict.empty": false, "bound": false,
+	"zero":      false, // explicit Go zero value ("" / 0 / false) for an optional scalar member when the type admits it
 	"int.large": false, "dt.offset": false, "str.unicode": false, "str.empty": false,
 	"any.bigint": true, // integers beyond 2^53 in `any` positions (re-encoded through float64)
 	"any.null":   true, // null inside `any`
@@ -142,7 +143,7 @@ func (g *docGen) intVal(s *Src) JV {
 		}
 		return jInt(hi)
 	}
-	if !g.o.Plain && !g.o.Avoid["int.large"] && s.Width == 64 && g.r.chance(8) {
+	if !g.o.Plain && !g.o.Avoid["int.large"] && s.Width == 64 && g.r.chance(12) {
 		cands := []int64{}
 		for _, c := range []int64{math.MaxInt64, math.MaxInt64 - 1, 1<<53 + 1, -(1<<53 + 1), math.MinInt64, 1 << 62, 123456789012345678} {
 			if c >= lo && c <= hi {
@@ -312,6 +313,12 @@ func (g *docGen) val(ty *Src, depth int) JV {
 					continue
 				}
 			}
+			if !f.Required && !g.o.Plain {
+				if z, ok := g.zeroScalar(f.Ty); ok && g.forced("zero") {
+					out.O = append(out.O, JKV{f.Name, z})
+					continue
+				}
+			}
 			out.O = append(out.O, JKV{f.Name, g.val(f.Ty, depth)})
 		}
 		return out
@@ -322,6 +329,31 @@ func (g *docGen) val(ty *Src, depth int) JV {
 		return g.val(srcRef(b.Name), depth)
 	}
 	return jNull()
+}
+
+// zeroScalar: the Go zero value of a scalar member type ("" / 0 / false) when the type admits it.
+func (g *docGen) zeroScalar(ty *Src) (JV, bool) {
+	t := g.d.resolve(ty)
+	if t == nil {
+		return JV{}, false
+	}
+	switch t.Kind {
+	case SBool:
+		return jBool(false), true
+	case SString:
+		if !t.DateTime && (t.MinLen == nil || *t.MinLen == 0) {
+			return jStr(""), true
+		}
+	case SInt:
+		if lo, hi := t.effRange(); lo <= 0 && hi >= 0 {
+			return jInt(0), true
+		}
+	case SNum:
+		if (t.FLo == nil || *t.FLo <= 0) && (t.FHi == nil || *t.FHi >= 0) {
+			return jInt(0), true
+		}
+	}
+	return JV{}, false
 }
 
 // ---- paths ----
